@@ -15,6 +15,7 @@ pub mod c10;
 pub mod c11;
 pub mod c12;
 pub mod c13;
+pub mod c14;
 pub mod c15;
 pub mod c16;
 pub mod c18;
@@ -38,6 +39,7 @@ pub fn lanes_of(id: &str) -> Vec<(&'static str, LaneFn)> {
         "C11" => vec![("decoder", c11::decoder), ("driver", c11::driver), ("stack", c11::stack)],
         "C12" => vec![("timeouts", c12::timeouts)],
         "C13" => vec![("histories", c13::histories), ("long_histories", c13::long_histories)],
+        "C14" => vec![("differential", c14::differential)],
         "C15" => vec![("random", c15::random), ("patterns", c15::patterns)],
         "C16" => vec![("paging", c16::paging)],
         "C18" => vec![("table", c18::table)],
@@ -79,6 +81,7 @@ pub fn replay(ctx: &Ctx, id: &str, v: &Value) -> Value {
         "C11" => c11::replay(ctx, v),
         "C12" => c12::replay(ctx, v),
         "C13" => c13::replay(ctx, v),
+        "C14" => c14::replay(ctx, v),
         "C15" => c15::replay(ctx, v),
         "C16" => c16::replay(ctx, v),
         "C18" => c18::replay(ctx, v),
